@@ -17,12 +17,19 @@ from ops_c14 import dump_state, exc, fhex
 TMP = Path(os.environ.get("VERIF_WORK", "/verif/work")) / "C10" / "tmp"
 
 
-def write_tmp(text, suffix=".pddl"):
+_FIXED_DIR = None     # set by after_noise(same_paths): every file of the job is written to the SAME path again and again
+
+
+def write_tmp(text, suffix=".pddl", name=None):
     TMP.mkdir(parents=True, exist_ok=True)
-    fd, name = tempfile.mkstemp(dir=str(TMP), suffix=suffix)
+    if _FIXED_DIR is not None:
+        p = Path(_FIXED_DIR) / ((name or "file") + suffix)
+        p.write_text(text)
+        return p
+    fd, fname = tempfile.mkstemp(dir=str(TMP), suffix=suffix)
     with os.fdopen(fd, "w") as fh:
         fh.write(text)
-    return Path(name)
+    return Path(fname)
 
 
 def vocabulary(domain):
@@ -145,7 +152,7 @@ def finish(domain, problem, triplets, joint, agents, exporter_cls, source_text=N
         out["export"] = exc(e)
         return out
     # through the file, as the library's users do
-    path = write_tmp("", ".trajectory")
+    path = write_tmp("", ".trajectory", name="observed")
     try:
         exporter_cls(domain).export_to_file(triplets, path)
         out["file_same"] = path.read_text() == text
@@ -167,8 +174,8 @@ def finish(domain, problem, triplets, joint, agents, exporter_cls, source_text=N
 
 def trajectory(job):
     """job: domain_text, problem_text, mode single|joint, plan (explicit) or walk {seed, steps, agents, cands}, allow_invalid"""
-    dpath = write_tmp(job["domain_text"])
-    ppath = write_tmp(job["problem_text"])
+    dpath = write_tmp(job["domain_text"], name="domain")
+    ppath = write_tmp(job["problem_text"], name="problem")
     try:
         domain = DomainParser(dpath).parse_domain()
         joint = job["mode"] == "joint"
@@ -206,13 +213,25 @@ def trajectory(job):
 def after_noise(job):
     """One job = one controlled order inside the worker process: first a whole unrelated round trip (build, export,
     parse back; usually with repeated-argument fluents -- the D07 area; its result is dropped), then the trajectory
-    that is judged.  What the judged trajectory must look like does not depend on what the process did before."""
-    for n in job["noise"]:
-        try:
-            trajectory(n)
-        except Exception:  # noqa
-            pass
-    return trajectory(job["main"])
+    that is judged.  What the judged trajectory must look like does not depend on what the process did before.
+    With same_paths every file of the job (domain, problem, trajectory) is written to the same path again and again,
+    as a user does who re-exports into one scratch file."""
+    global _FIXED_DIR
+    if job.get("same_paths"):
+        TMP.mkdir(parents=True, exist_ok=True)
+        _FIXED_DIR = tempfile.mkdtemp(dir=str(TMP))
+    try:
+        for n in job["noise"]:
+            try:
+                trajectory(n)
+            except Exception:  # noqa
+                pass
+        return trajectory(job["main"])
+    finally:
+        if _FIXED_DIR is not None:
+            import shutil
+            shutil.rmtree(_FIXED_DIR, ignore_errors=True)
+            _FIXED_DIR = None
 
 
 def shipped(job):
